@@ -3,9 +3,14 @@ _ENV = {"GOGC": "800"}          # the sweeps allocate heavily; fewer collections
 _CFG = ["avx2", "noaes"]        # asm variant; "purego" is added as its own variant below
 
 
-def _both(wl, shards, floor, deadline=None):
-    return [J(wl, _CFG, "asm", shards, floor=floor, env=_ENV, procs=2, deadline=deadline),
+def _both(wl, shards, floor, deadline=None, cfg=_CFG):
+    return [J(wl, cfg, "asm", shards, floor=floor, env=_ENV, procs=2, deadline=deadline),
             J(wl, ["purego"], "purego", shards, floor=floor, env=_ENV, procs=2, deadline=deadline)]
+
+
+# "noaes" changes the SM4 / GCM back end only (checked with the hello records: sm4.supportsAES and zuc.supportsAES flip,
+# nothing of SM2 / SM3 / bigmod does), so it is used where content ciphers run: the envelope workloads.
+_SIG = ["avx2"]
 
 
 PLAN = dict(
@@ -22,10 +27,10 @@ PLAN = dict(
          "contents come from the case PRNG; a case is non-trivial unless marked (empty DER content); distinct = distinct class "
          "keys (configuration | api / mode / OID family / verification path / signer (key-digest-attributes) list or "
          "api / cipher / recipient kinds | content-length class)",
-    jobs=_both("c16.signed.alter", (8, 16), 100, "120s")
+    jobs=_both("c16.signed.alter", (8, 16), 100, "120s", _SIG)
     + _both("c16.signenv.alter", (3, 12), 20, "120s")
     + _both("c16.env.roundtrip", (2, 6), 1000)
-    + _both("c16.signed.roundtrip", (1, 4), 500)
+    + _both("c16.signed.roundtrip", (1, 4), 500, None, _SIG)
     + [J("c16.sha1", ["sha1ok"], "asm", (1, 4), floor=20, env=_ENV, procs=2, deadline="120s"),
        J("c16.ber.der", ["avx2"], "asm", (1, 2), floor=1000, env=_ENV, procs=2),
        J("c16.ber.variants", ["avx2"], "asm", (1, 2), floor=100, env=_ENV, procs=2)],
@@ -51,7 +56,7 @@ PLAN = dict(
 CLAIM = dict(
     text="Runtime monitoring of pkcs7 and cfca message handling: honest SignedData / EnvelopedData / EncryptedData / "
          "SignedAndEnvelopedData over the option product parse, verify and decrypt for every intended recipient; every "
-         "single-byte substitution of ~200 (quick) / ~3000 (thorough) signed messages per configuration either fails or leaves "
+         "single-byte substitution of ~210 (quick) / ~4800 (thorough) signed or signed-and-enveloped messages per configuration either fails or leaves "
          "content, authenticated attributes, signature value, signer key (with a trust store: the signer certificate) unchanged; "
          "strangers, impostor certificates, recipient certificates paired with other keys and other pre-shared keys never get the "
          "content and get an error; the BER normaliser is the identity on every DER element produced and on generated DER trees, "
